@@ -69,6 +69,9 @@ func (w *World) SetupTxUniverse() {
 	add("M1", []wire.OutPoint{fund(1), fund(2)}, [][]byte{rel}, 7) // conflicts with I1 and R3
 	add("I2", []wire.OutPoint{fund(3)}, [][]byte{irr}, 8)
 	add("M2", []wire.OutPoint{fund(0), fund(2)}, [][]byte{rel}, 9) // conflicts with R1 (first input) and R3 (second input)
+	for k := 0; k < w.cfg.Burst; k++ { // independent relevant txs for the back-pressure scenario
+		add(fmt.Sprintf("B%03d", k), []wire.OutPoint{fund(uint32(100 + k))}, [][]byte{rel}, uint32(100+k))
+	}
 }
 
 func (w *World) relevant(name string) bool {
@@ -179,6 +182,23 @@ func (w *World) applyTxEvent(p []string) (bool, bool) {
 		w.uMempool(p[1], p[2])
 		w.noteArrival(p[2], p[1], "tx")
 		w.send(pc, w.Txs[p[2]])
+		w.settle()
+		return true, true
+	case "burst": // burst:<src>: the peer relays every B tx back to back (more than the node's tx channel buffers)
+		pc := w.connOf(p[1])
+		if pc == nil || pc.conn == nil || pc.conn.IsClosed() || w.bursted || w.cfg.Burst == 0 {
+			return true, false
+		}
+		w.bursted = true
+		for k := 0; k < w.cfg.Burst; k++ {
+			n := fmt.Sprintf("B%03d", k)
+			if p[1] == "T" {
+				w.Mempool[n] = w.Txs[n]
+			}
+			w.uMempool(p[1], n)
+			w.noteArrival(n, p[1], "tx")
+			w.send(pc, w.Txs[n])
+		}
 		w.settle()
 		return true, true
 	case "uans": // uans:<src>: untrusted peer answers its oldest pending request
